@@ -254,8 +254,9 @@ def gen_parse_table():
 
     # --- parse_rfc2822
     b = fn_body(src, 'parse_rfc2822')
-    nums = re.findall(r'parsed\.set_(\w+)\(try_consume!\(scan::number\((\w+), (\d+), (\d+)\)\)\)\?;', b)
-    want = [('day', 's'), ('hour', 's'), ('minute', 's'), ('second', 's_')]
+    nums = re.findall(r'parsed\.set_(\w+)\(try_consume!\(scan::number\(([\w.()]+), (\d+), (\d+)\)\)\)\?;', b)
+    # repaired (434a887): white space is skipped before the seconds as well
+    want = [('day', 's'), ('hour', 's'), ('minute', 's'), ('second', 's_.trim_start()')]
     if [(n[0], n[1]) for n in nums] != want:
         raise TranslateError('parse_rfc2822: number fields changed: %r' % nums)
     out += '(* parse_rfc2822: (min, max) digits of day, hour, minute, second; year *)\n'
